@@ -1,4 +1,4 @@
-\* overlapping calls of A (through the relay or directly) and of the relay R itself
+\* one call with the retry ticker: abandoned attempts run on, late results are read by a later wait
 SPECIFICATION Spec
 CONSTANTS
   Nodes <- MCNodes
@@ -7,14 +7,14 @@ CONSTANTS
   Funds <- MCFundsRich
   Thr = 2
   Tol = 2
-  FaultKinds <- ConcFaults
+  FaultKinds <- AllFaults
   MaxFaults = 1
-  MaxTop = 2
+  MaxTop = 1
   MaxSettle = 0
   Requesters <- MCRequesters
-  RouteLists <- MCRoutesConc
-  Concurrent = TRUE
-  Timeouts = FALSE
+  RouteLists <- MCRoutesSmall
+  Concurrent = FALSE
+  Timeouts = TRUE
 INVARIANTS TypeOK P1_StoredOnlyAfterValidDelivery P2_CreditedOncePerAcceptedDelivery P2_BooksAreCredits
   P3_DebitedOncePerDelivery P4_NoRequestWithoutReserve P5_RelayCachesAndAccounts P6_AttemptBound
   PayRequests HolderKnows
